@@ -225,3 +225,6 @@ def run(ctx, w):
     relayout_after_switch(ctx, w, S, R, rule="P7")
     from rules import c14
     c14.gc_rules(ctx, w, S, R, rule_prefix="P8")
+    # "1049 saves the cursor on entry and restores it on exit ... puts the cursor back on
+    # the same character": the save/restore pairing and per-screen context rules of C17
+    c17.run(ctx, w, embedded=True)
